@@ -48,22 +48,22 @@ theorem spec_setProp_other (s : Spec.Val.St) (hx p : Nat) (t : Tree) :
     · simp [List.getElem?_set, e]
 
 /-- a write at any depth is a rewrite of the tree of the root name -/
-theorem spec_modify_root (s : Spec.Val.St) : (b : Place) → (F : Tree → Option Tree) →
-    ∃ F', Spec.Val.modify s b F = Spec.Val.modify s b.root F'
+theorem spec_modify_root (s : Spec.Val.St) (c : Bool) : (b : Place) → (F : Tree → Option Tree) →
+    ∃ F', Spec.Val.modify s c b F = Spec.Val.modify s c b.root F'
   | .var x, F => ⟨F, rfl⟩
   | .prop x p, F => ⟨F, rfl⟩
   | .idx b k, F => by
       simp only [Spec.Val.modify, Place.root]
-      exact spec_modify_root s b _
+      exact spec_modify_root s c b _
 
-theorem spec_modify_local (s s' : Spec.Val.St) (b : Place) (F : Tree → Option Tree)
-    (h : Spec.Val.modify s b F = some s') :
+theorem spec_modify_local (s s' : Spec.Val.St) (c : Bool) (b : Place) (F : Tree → Option Tree)
+    (h : Spec.Val.modify s c b F = some s') :
     match b.root with
     | .var x => s'.objs = s.objs ∧ ∀ y, s.names[y]? ≠ s.names[x]? → s'.varVal? y = s.varVal? y
     | .prop x p => (∀ y, s'.varVal? y = s.varVal? y) ∧
         ∀ h0 p', (s.varObj? x ≠ some h0 ∨ p' ≠ p) → s'.propVal? h0 p' = s.propVal? h0 p'
     | .idx _ _ => True := by
-  obtain ⟨F', hF⟩ := spec_modify_root s b F
+  obtain ⟨F', hF⟩ := spec_modify_root s c b F
   rw [hF] at h
   cases hr : b.root with
   | idx b' k => trivial
